@@ -71,6 +71,7 @@ type FuncContract struct {
 	Assigns []string // heap key patterns; nil = inferred
 	HasAssigns bool
 	Pure    bool
+	PureName string
 	Line    int
 	Flags   map[string]bool
 	GhostUpd []GhostUpdate
@@ -124,6 +125,7 @@ type Contracts struct {
 	Ghosts   map[string]*GhostVar
 	GhostOrder []string
 	Regions  map[string]string // type name -> region
+	PureNames map[string]*FuncContract
 	Guarded  map[string]string // field key "T.f" -> mutex field "T.m"
 	Monotone map[string]bool   // "T.f": boolean field that never goes from true to false
 	Callers  map[string][]string // callee name -> functions allowed to call it
@@ -135,7 +137,7 @@ type Contracts struct {
 
 func ParseContractsFile(path string) (*Contracts, error) {
 	cs := &Contracts{Path: path, Funcs: map[string]*FuncContract{}, TypeInvs: map[string]*TypeInv{},
-		Specs: map[string]*SpecFn{}, Ghosts: map[string]*GhostVar{}, Regions: map[string]string{}, Guarded: map[string]string{}, Monotone: map[string]bool{}, Callers: map[string][]string{}, CallersProps: map[string][]string{}, Writers: map[string][]string{}, WritersProps: map[string][]string{}}
+		Specs: map[string]*SpecFn{}, Ghosts: map[string]*GhostVar{}, Regions: map[string]string{}, PureNames: map[string]*FuncContract{}, Guarded: map[string]string{}, Monotone: map[string]bool{}, Callers: map[string][]string{}, CallersProps: map[string][]string{}, Writers: map[string][]string{}, WritersProps: map[string][]string{}}
 	f, err := os.Open(path)
 	if err != nil {
 		if os.IsNotExist(err) {
@@ -287,11 +289,16 @@ func ParseContractsFile(path string) (*Contracts, error) {
 				}
 			}
 		case "pure":
+			// pure [as NAME]: no writes; the result is a function of the arguments (NAME usable in contracts)
 			if cur == nil {
 				return nil, fail(fmt.Errorf("pure outside function contract"))
 			}
 			cur.Pure = true
 			cur.HasAssigns = true
+			if fsx := strings.Fields(rest); len(fsx) == 2 && fsx[0] == "as" {
+				cur.PureName = fsx[1]
+				cs.PureNames[fsx[1]] = cur
+			}
 		case "flag":
 			if cur == nil {
 				return nil, fail(fmt.Errorf("flag outside function contract"))
